@@ -497,19 +497,19 @@ let ghost vx_self0 = *self; let ghost vx_alloc0 = *entity_allocator; proof { vx_
         
 
         vx_raw_vec_len(&mut self.entity_identifiers, self.length);
-        let entity_identifier = self.entity_identifiers.swap_remove(index);
 
-        self.length -= 1;
-
-        if index < self.length {
+        if index < self.length - 1 {
 
             unsafe {
                 entity_allocator.modify_location_index_unchecked(
-                    self.entity_identifiers[index],
+                    *self.entity_identifiers.last().unwrap(),
                     index,
                 );
             }
         }
+        let entity_identifier = self.entity_identifiers.swap_remove(index);
+
+        self.length -= 1;
 
 proof {
             let len = vx_self0.length as int;
@@ -603,6 +603,108 @@ let ghost vx_self0 = *self;
 proof { assert(self.ids() =~= vx_self0.ids().push(entity_identifier)); }
         self.length - 1
 
+    }
+
+    pub unsafe fn clear(&mut self, entity_allocator: &mut Allocator<R>)
+        requires
+            old(self).wf(),
+            old(entity_allocator).wf(),
+            old(self).agrees(old(entity_allocator)),
+        ensures
+            final(self).wf(),
+            final(self).key() == old(self).key(),
+            final(entity_allocator).wf_free_in_bounds(),
+            final(entity_allocator).wf_free_inactive(),
+            final(entity_allocator).wf_free_distinct(),
+            final(entity_allocator).wf_free_complete(),
+            final(self).length == 0 && final(self).rows().len() == 0 && final(self).ids().len() == 0,
+            forall|k: int| 0 <= k < old(self).length ==> !final(entity_allocator).resolves(#[trigger] old(self).ids()[k]),
+            forall|i: entity::Identifier| final(entity_allocator).resolves(i) == (old(entity_allocator).resolves(i) && !old(self).ids().contains(i)),
+            forall|i: entity::Identifier| final(entity_allocator).resolves(i) ==> final(entity_allocator).view()[i] == old(entity_allocator).view()[i],
+            final(entity_allocator).slots@.len() == old(entity_allocator).slots@.len(),
+            forall|s: int| 0 <= s < old(entity_allocator).slots@.len() ==> (#[trigger] final(entity_allocator).slots@[s]).generation == old(entity_allocator).slots@[s].generation,
+    {
+
+let ghost vx_self0 = *self; let ghost vx_alloc0 = *entity_allocator; proof { vx_self0.lemma_ids_distinct(&vx_alloc0); }
+
+
+        unsafe { vx_clear_components(&mut self.components, self.length, self.identifier.iter()) };
+
+        vx_raw_vec_len(&mut self.entity_identifiers, self.length);
+        for entity_identifier in vx_it: self.entity_identifiers.iter() 
+            invariant
+                entity_allocator.wf(),
+                self.entity_identifiers@ == vx_self0.ids(),
+                vx_it.index@ <= vx_self0.length,
+                vx_self0.ids().len() == vx_self0.length,
+                forall|r: int| vx_it.index@ <= r < vx_self0.length ==> entity_allocator.resolves(#[trigger] vx_self0.ids()[r]),
+                forall|i: entity::Identifier| entity_allocator.resolves(i) == (vx_alloc0.resolves(i) && !vx_self0.ids().take(vx_it.index@).contains(i)),
+                forall|i: entity::Identifier| entity_allocator.resolves(i) ==> entity_allocator.view()[i] == vx_alloc0.view()[i],
+                entity_allocator.slots@.len() == vx_alloc0.slots@.len(),
+                forall|s: int| 0 <= s < vx_alloc0.slots@.len() ==> (#[trigger] entity_allocator.slots@[s]).generation == vx_alloc0.slots@[s].generation,
+                forall|r: int, q: int| 0 <= r < q < vx_self0.length ==> vx_self0.ids()[r] != vx_self0.ids()[q],
+{
+
+let ghost vx_pre = *entity_allocator; let ghost vx_k = vx_it.index@; proof { assert(vx_k < vx_self0.length); assert(*entity_identifier == vx_self0.ids()[vx_k]); }
+            unsafe { entity_allocator.free_unchecked(*entity_identifier) };
+proof {
+                let k = vx_k;
+                let idk = vx_self0.ids()[k];
+                assert(*entity_identifier == idk);
+                let t0 = vx_self0.ids().take(k);
+                let t1 = vx_self0.ids().take(k + 1);
+                assert(t1 =~= t0.push(idk));
+                assert forall|i: entity::Identifier| entity_allocator.resolves(i) == (vx_alloc0.resolves(i) && !t1.contains(i)) by {
+                    assert(entity_allocator.view().dom().contains(i) == vx_pre.view().remove(idk).dom().contains(i));
+                    if t1.contains(i) {
+                        let j = choose|j: int| 0 <= j < t1.len() && t1[j] == i;
+                        if j < k { assert(t0[j] == i); }
+                    } else {
+                        if t0.contains(i) {
+                            let j = choose|j: int| 0 <= j < t0.len() && t0[j] == i;
+                            assert(t1[j] == i);
+                        }
+                        assert(i != idk) by { assert(t1[k] == idk); }
+                    }
+                }
+                assert forall|r: int| k + 1 <= r < vx_self0.length implies entity_allocator.resolves(#[trigger] vx_self0.ids()[r]) by {
+                    assert(vx_self0.ids()[r] != idk);
+                    assert(vx_pre.view().dom().contains(vx_self0.ids()[r]));
+                    assert(entity_allocator.view().dom().contains(vx_self0.ids()[r]));
+                }
+                assert forall|i: entity::Identifier| entity_allocator.resolves(i) implies entity_allocator.view()[i] == vx_alloc0.view()[i] by {
+                    assert(entity_allocator.view().dom().contains(i));
+                    assert(vx_pre.view().dom().contains(i));
+                }
+            }
+
+        }
+        self.entity_identifiers.clear();
+
+        self.length = 0;
+proof {
+            assert(vx_self0.ids().take(vx_self0.length as int) =~= vx_self0.ids());
+            assert(self.ids() =~= Seq::<entity::Identifier>::empty());
+        }
+
+    }
+
+    pub unsafe fn reserve<E>(&mut self, additional: usize)
+        requires
+            old(self).wf(),
+        ensures
+            final(self).wf(),
+            final(self).key() == old(self).key(),
+            final(self).length == old(self).length && final(self).rows() == old(self).rows() && final(self).ids() == old(self).ids(),
+    {
+
+
+        unsafe { vx_reserve_components(&mut self.components, self.length, additional) }
+
+        vx_raw_vec_len(&mut self.entity_identifiers, self.length);
+        self.entity_identifiers.reserve(additional);
+        /* R4: write-back of self.entity_identifiers dropped */
+    
     }
 
     pub fn clear_detached(&mut self)
@@ -1481,6 +1583,14 @@ impl<R> Allocator<R> where R: Registry {
             final(self).free@ == old(self).free@,
     {
 
+
+        while self.slots.last().map_or(false, |slot| !slot.is_active()) {
+            self.slots.pop();
+        }
+        let slots_len = self.slots.len();
+        self.free.retain(|&index| index < slots_len);
+
+        self.slots.shrink_to_fit();
         self.free.shrink_to_fit();
     
     }
